@@ -1001,6 +1001,10 @@ def big_rank_events(ctx, rnd, quick):
             forgiving(ctx, events, {"op": "BigUnrankN", "value": r, "n": n, "form": rnd.choice(["", "alias"])})
         for r in (shorter(n), shorter(n + 1) - 1, rnd.randrange(shorter(n), shorter(n + 1))):
             forgiving(ctx, events, {"op": "BigUnrank", "value": r})
+    for n in (11, 12, 13, 13):                           # pairs whose entries written one after the other read the same
+        for t in util.digit_twins(rnd, n):
+            forgiving(ctx, events, {"op": "BigRank", "p": list(t)})
+            forgiving(ctx, events, {"op": "Std", "pat": list(t), "carrier": "int", "variant": 0})
     # shadings of grids with 36 to 100 cells
     for k in ((5, 6, 7, 7, 8, 9) if quick else (5, 6, 7, 8, 9) * 8):
         p = list(util.rand_perm(rnd, k))
